@@ -97,4 +97,17 @@ theorem C14_degreeClean_idempotent (c : Curve) (tol : Rat) (hwf : WF c.kv.v c.kv
   obtain ⟨e, he⟩ := degreeCleanLoop_ends_refused (c.kv.deg + 1) c tol hwf hsep (by omega)
   exact degreeCleanLoop_of_refused _ _ tol e he
 
+/-- C06: a reduction by more than the degree is refused with ValueError -/
+theorem C06_excess_times_rejected (c : Curve) (t : Nat) (tol : Option Rat) (h : c.kv.deg < t) :
+    c.degreeDecrease t tol = .error .value := by
+  unfold Curve.degreeDecrease
+  have h0 : t ≠ 0 := by omega
+  simp [h0, h, bind, Except.bind, throw, throwThe, MonadExceptOf.throw]
+
+/-- C06: an accepted `degree_decrease(1)` lands one degree lower on a well-formed knot vector (for every tolerance) -/
+theorem C06_decrease_one_degree (c c' : Curve) (tol : Option Rat) (hwf : WF c.kv.v c.kv.deg)
+    (hsep : Separated c.kv.v) (h : c.degreeDecrease 1 tol = .ok c') :
+    c'.kv.deg + 1 = c.kv.deg ∧ WF c'.kv.v c'.kv.deg :=
+  ⟨(degreeDecrease_one_degree c c' tol hwf hsep h).1, (degreeDecrease_one_degree c c' tol hwf hsep h).2.1⟩
+
 end NV
